@@ -253,3 +253,95 @@ Proof.
   - intros. eapply fill_array_first_rep_rejected; eauto.
   - apply arrives_fill_array_jump.
 Qed.
+
+(* ---- FILL arrays that are too short, written with shorthand, in front of a keyword ---- *)
+Section ShortArrays.
+  Context {T : Type} (S : Scalar T).
+
+  (* what may follow an array that is too short: nothing, or a token that is
+     neither a number nor a data-card shorthand (a keyword) *)
+  Definition ends_array (rest : list (tok (T:=T))) : Prop :=
+    match rest with
+    | [] => True
+    | h :: _ => exists ch, last_char (strip_ws (tsp h)) = Some ch /\
+                           Ascii.eqb ch "r" = false /\ Ascii.eqb ch "j" = false /\
+                           (Ascii.eqb ch "i" || Ascii.eqb ch "m" || Ascii.eqb ch "g") = false /\
+                           num_lit (strip_ws (tsp h)) = false
+    end.
+
+  Lemma expand_items_short (l rest : list (tok (T:=T))) m :
+    items l m -> ends_array rest -> forall e acc c, acc <> [] ->
+    (Z.of_nat (List.length acc + m) < e)%Z ->
+    expand S (l ++ rest)%list (Some e) acc c = XErr EValue.
+  Proof.
+    induction 1 as [|t n l m Ht Hl IH]; intros Hend e acc c Hacc Hlen.
+    - simpl List.length in *. rewrite Nat.add_0_r in *. simpl app.
+      destruct rest as [|h rest].
+      + cbn [expand]. unfold xfinish.
+        destruct (Z.eqb_spec (Z.of_nat (List.length acc)) e); [lia|reflexivity].
+      + destruct Hend as [ch [H1 [H2 [H3 [H4 H5]]]]].
+        cbn [expand]. cbv zeta.
+        assert (Hr : reached (Some e) acc = false).
+        { unfold reached. destruct (Z.ltb_spec (Z.of_nat (List.length acc)) e); [reflexivity|lia]. }
+        rewrite Hr, H1, H2, H3, H4, H5. reflexivity.
+    - assert (Hn : (1 <= n)%nat) by (destruct Ht; lia).
+      assert (Hr : reached (Some e) acc = false).
+      { unfold reached. destruct (Z.ltb_spec (Z.of_nat (List.length acc)) e); [reflexivity|lia]. }
+      simpl app. cbn [expand]. cbv zeta. rewrite Hr.
+      destruct Ht as [t [ch [H1 [H2 [H3 [H4 H5]]]]]|t n H1 H2 H3|t n H1 H2 H3].
+      + rewrite H1, H2, H3, H4, H5. apply IH; [exact Hend|destruct acc; discriminate|].
+        rewrite app_length. simpl. lia.
+      + rewrite H1. simpl Ascii.eqb. cbv iota. rewrite H2.
+        destruct (rev acc) as [|v r] eqn:Er.
+        { exfalso. apply Hacc. apply (f_equal (@rev _)) in Er. rewrite rev_involutive in Er. exact Er. }
+        apply IH; [exact Hend|destruct acc; [contradiction|discriminate]|].
+        rewrite app_length, repeat_length. lia.
+      + rewrite H1. simpl Ascii.eqb. cbv iota. rewrite H2.
+        apply IH; [exact Hend|destruct acc; [contradiction|discriminate]|].
+        rewrite app_length, repeat_length. lia.
+  Qed.
+
+  (* a FILL array written with plain numbers, nR and nJ that holds fewer
+     entries than its ranges ask for, at the end of the options or in front of
+     a keyword *)
+  Theorem fill_array_short_rejected_gen star trs first rs t0 l rest b m :
+    has_colon first = true -> forallb has_colon rs = true -> has_colon t0 = false ->
+    parse_ranges (map tsp (first :: rs)) = Ok b ->
+    plain t0 -> items l m -> ends_array rest ->
+    (Z.of_nat (1 + m) < bounds_size b)%Z ->
+    parse_fill S star trs (first :: rs ++ t0 :: l ++ rest)%list = Err EParseCell.
+  Proof.
+    intros Hc Hrs Hc0 Hb [ch [H1 [H2 [H3 [H4 H5]]]]] Hl Hend Hlt.
+    unfold parse_fill. rewrite Hc.
+    assert (Hspan : span has_colon (rs ++ t0 :: l ++ rest)%list = (rs, (t0 :: l ++ rest)%list)).
+    { apply span_app; [exact Hrs|exact Hc0]. }
+    rewrite Hspan, Hb. cbn [bind].
+    assert (Hx : expand S (t0 :: l ++ rest)%list (Some (bounds_size b)) [] 0 = XErr EValue).
+    { cbn [expand]. cbv zeta.
+      assert (Hr : reached (Some (bounds_size b)) (@nil (option (T * Z))) = false).
+      { unfold reached. simpl. destruct (Z.ltb_spec 0 (bounds_size b)); [reflexivity|lia]. }
+      rewrite Hr, H1, H2, H3, H4, H5. simpl app.
+      apply (expand_items_short l rest m Hl Hend); [discriminate|simpl; lia]. }
+    rewrite Hx. reflexivity.
+  Qed.
+
+  Theorem run_fill_array_short_rejected_gen (d : deckm (T:=T)) c e first rs t0 l rest b m :
+    In c (d_cells d) ->
+    (forall trs, stage_trs S (d_trs d) [] = Ok trs ->
+       exists k n, arrives S trs (c_toks c) kws0 (e :: first :: rs ++ t0 :: l ++ rest)%list k n) ->
+    prefix "imp" (tsp e) = false -> contains_sub "fill" (tsp e) = true ->
+    has_colon first = true -> forallb has_colon rs = true -> has_colon t0 = false ->
+    parse_ranges (map tsp (first :: rs)) = Ok b ->
+    plain t0 -> items l m -> ends_array rest ->
+    (Z.of_nat (1 + m) < bounds_size b)%Z ->
+    is_ok (validate S d) = false.
+  Proof.
+    intros Hin Harr H1 H2 Hc Hrs Hc0 Hb Hp Hl Hend Hlt.
+    apply (cell_fault_rejected_trs S d c Hin). intros trs imps rank lat _ Htrs.
+    destruct (Harr trs Htrs) as [k [n Ha]].
+    eapply parse_cell_arrives_err with (err := EParseCell); [exact Ha|discriminate|].
+    intros f. cbn [parse_kw]. cbv zeta. rewrite H1, H2.
+    rewrite (fill_array_short_rejected_gen _ trs first rs t0 l rest b m Hc Hrs Hc0 Hb Hp Hl Hend Hlt).
+    reflexivity.
+  Qed.
+End ShortArrays.
